@@ -543,7 +543,7 @@ def main(argv):
             "suites": [{"suite": s["suite"], "ops": s["ops"], "direct_evaluations": s.get("direct", 0), "disagreements": s.get("n_mismatch", 0), "stats": s["stats"],
                         "extra": s["extra"], "propfails": len(s["propfails"])} for s in suites],
             "source_digest": digest, "known_findings_reported": len(known_hits),
-            "explanation": cfg.get("explanation", ""),
+            "explanation": (cfg.get("claim", "") + " || " + cfg.get("note", "")).strip(" |"),
             "log": log,
         },
     }
